@@ -324,6 +324,9 @@ impl GFpEchelonBuilder {
                 mw += ws[j][i] as u128 * ms[j] as u128;
             }
             let mw = mg_redc(self.p, self.pinv, mw);
+            // The sum of N products can exceed p * 2^64 (p is close to 2^62 in det_matz):
+            // mg_redc then returns a value in [p, 2p).
+            let mw = if mw >= p { mw - p } else { mw };
             if v[i] >= mw {
                 v[i] -= mw;
             } else {
